@@ -629,7 +629,8 @@ let () =
               | [ "DROP"; a ] | [ "DROPT"; a ] -> invalidate (slot_of a)
               | [ "DROPALL" ] -> Hashtbl.reset tts; Hashtbl.reset fams; dropall_gc := true
               | [ "GC" ] -> gc_pending := true
-              | [ "FILL" ] ->
+              | [ "SESSION"; _ ] -> ()
+              | [ "FILL" ] | [ "BIGFILL" ] ->
                 (* capacity probe: with every created node alive the store must be full at the first OOM *)
                 check "C05";
                 let kv = List.filter_map (fun t -> match String.split_on_char '=' t with [ k; v ] -> Some (k, int_of_string v) | _ -> None) (split_ws res) in
